@@ -163,11 +163,11 @@ _OPAQUE = object()
 _COMP_NAMES = ("<genexpr>", "<listcomp>", "<setcomp>", "<dictcomp>")
 
 
-def cell_states(code, instrs, live, params):
-    """definite assignment of the cell variables of `code` (the locals its inner functions read), by a forward
-    data-flow over the control-flow graph without exception edges (a `try` body is taken to run to its end):
-    returns, for every live instruction index, the set of cells certainly bound *before* it"""
-    cells = set(code.co_cellvars)
+def cell_states(code, instrs, live, params, names=None):
+    """definite assignment of the followed locals of `code` (by default its cell variables: the locals its inner
+    functions read), by a forward data-flow over the control-flow graph without exception edges (a `try` body is
+    taken to run to its end): returns, for every live instruction index, the set certainly bound *before* it"""
+    cells = set(code.co_cellvars) if names is None else set(names)
     idx = {ins.offset: k for k, ins in enumerate(instrs)}
     n = len(instrs)
 
@@ -200,9 +200,9 @@ def cell_states(code, instrs, live, params):
             continue
         st = set(before[k])
         ins = instrs[k]
-        if ins.opname == "STORE_DEREF" and ins.argval in cells:
+        if ins.opname in ("STORE_DEREF", "STORE_FAST") and ins.argval in cells:
             st.add(ins.argval)
-        elif ins.opname == "DELETE_DEREF":
+        elif ins.opname in ("DELETE_DEREF", "DELETE_FAST"):
             st.discard(ins.argval)
         st = frozenset(st)
         for s2 in succs(k):
@@ -311,7 +311,32 @@ def analyse(code, mod, do_imports):
             depth = max(0, depth - 1)
         elif op not in ("LOAD_CONST", "SWAP"):
             depth = 0
-    import_only = {n for n, k in import_stores.items() if stores.get(n) == k and n not in params}
+    # ... and locals bound by nothing but `x = name.a.b` whose root is a global, an import-bound local or another
+    # such alias (aliases of modules, followed like import-bound locals)
+    alias_roots = {}      # name -> roots of its alias stores (None: a global)
+    for k, ins in enumerate(instrs):
+        if ins.opname == "STORE_FAST":
+            j = k - 1
+            while j >= 0 and instrs[j].opname == "LOAD_ATTR":
+                j -= 1
+            if j >= 0 and instrs[j].opname in ("LOAD_GLOBAL", "LOAD_NAME"):
+                alias_roots.setdefault(ins.argval, []).append(None)
+            elif j >= 0 and instrs[j].opname in ("LOAD_FAST", "LOAD_FAST_CHECK"):
+                alias_roots.setdefault(ins.argval, []).append(instrs[j].argval)
+    cand = {n for n, k in stores.items()
+            if import_stores.get(n, 0) + len(alias_roots.get(n, ())) == k and n not in params}
+    changed = True
+    while changed:
+        changed = False
+        for n in list(cand):
+            if any(r is not None and r not in cand for r in alias_roots.get(n, ())):
+                cand.discard(n)
+                changed = True
+    import_only = cand
+    alias_only = {n for n in import_only if alias_roots.get(n)}
+    bound_before = cell_states(code, instrs, live, set(), names=import_only) if import_only else {}
+    chain_end = {}        # index of the instruction after a name.a.b chain -> the value of the chain
+    maybe_unbound = []
     cells = set(code.co_cellvars)
     impvals = {}                        # the module an import statement bound a cell variable to
     stack = []            # the values of an import statement in progress
@@ -323,18 +348,6 @@ def analyse(code, mod, do_imports):
         op = ins.opname
         if i not in live:
             continue
-        if ins.offset in leaders:
-            # a join point: what a conditional block has bound is not certain any more (what was bound before is)
-            for n, prev in cond.items():
-                if prev is _MISSING:
-                    implocals.pop(n, None)
-                else:
-                    implocals[n] = prev
-            cond.clear()
-            in_cond_block = True
-        if op.startswith("POP_JUMP") or op in ("FOR_ITER", "JUMP_FORWARD", "JUMP_BACKWARD",
-                                                "JUMP_BACKWARD_NO_INTERRUPT", "SEND"):
-            in_cond_block = True
         if op == "LOAD_CONST":
             consts = (consts + [ins.argval])[-2:]
             continue
@@ -346,8 +359,13 @@ def analyse(code, mod, do_imports):
                     obj = builtins.__import__(ins.argval, g, {}, fromlist, level or 0)
                 except BaseException as e:      # noqa
                     info = exc_info(e)
-                    if info["undefined_name"] or ins.argval.startswith("lena") or level:
-                        problems.append({"kind": type(e).__name__, "name": ins.argval, "msg": info["msg"]})
+                    missing = getattr(e, "name", None)
+                    third_party = isinstance(e, ImportError) and missing and not (
+                        missing == "lena" or missing.startswith("lena."))
+                    # the ImportError of a third-party module that this environment lacks is the documented outcome
+                    if not third_party and (info["undefined_name"] or ins.argval.startswith("lena") or level):
+                        problems.append({"kind": type(e).__name__, "name": ins.argval, "msg": info["msg"],
+                                         "line": ins.positions.lineno})
             stack = [obj]
         elif op == "IMPORT_FROM":
             top = stack[-1] if stack else None
@@ -358,7 +376,8 @@ def analyse(code, mod, do_imports):
                 except AttributeError:
                     val = sys.modules.get(getattr(top, "__name__", "?") + "." + ins.argval)
                     if val is None and is_lena_module(top):
-                        problems.append({"kind": "ImportError", "name": ins.argval, "on": top.__name__})
+                        problems.append({"kind": "ImportError", "name": ins.argval, "on": top.__name__,
+                                         "line": ins.positions.lineno})
             stack.append(val)
         elif op == "SWAP":
             if len(stack) >= 2:
@@ -377,10 +396,11 @@ def analyse(code, mod, do_imports):
             if stack:
                 val = stack.pop()
                 if op in ("STORE_FAST", "STORE_DEREF"):
-                    if in_cond_block and ins.argval not in cond:
-                        cond[ins.argval] = implocals.get(ins.argval, _MISSING)
                     # an import that could not be performed here (module not installed) binds an unknown object
                     implocals[ins.argval] = val if val is not None else _OPAQUE
+            elif op == "STORE_FAST" and ins.argval in alias_only and i in chain_end:
+                v = chain_end[i]
+                implocals[ins.argval] = v if is_lena_module(v) else _OPAQUE
             elif op in ("STORE_FAST", "STORE_DEREF"):
                 implocals.pop(ins.argval, None)       # re-bound by something that is not an import
         else:
@@ -396,27 +416,40 @@ def analyse(code, mod, do_imports):
                         val, found = getattr(builtins, name), True
                     else:
                         val, found = None, False
-                        problems.append({"kind": "NameError", "name": name})
+                        problems.append({"kind": "NameError", "name": name, "line": ins.positions.lineno})
                 else:
-                    found = name in implocals
+                    # a followed local: bound here if the data-flow says so on every path (its value: the last one
+                    # stored, in layout order)
+                    found = name in implocals and (name not in import_only or name in bound_before.get(i, implocals))
                     val = implocals.get(name)
                     if found:
                         n_loads += 1
                     elif name in import_only and op in ("LOAD_FAST", "LOAD_FAST_CHECK"):
                         n_loads += 1
-                        problems.append({"kind": "NameError", "name": name, "unbound_local": True})
+                        problems.append({"kind": "NameError", "name": name, "unbound_local": True,
+                                         "line": ins.positions.lineno})
+                    elif op == "LOAD_FAST_CHECK" and name not in maybe_unbound:
+                        maybe_unbound.append(name)
                 j = i + 1
+                broken = False
                 while found and is_lena_module(val) and j < len(instrs) and instrs[j].opname in ("LOAD_ATTR", "LOAD_METHOD"):
                     a = instrs[j].argval
                     if not hasattr(val, a):
-                        problems.append({"kind": "AttributeError", "name": a, "on": val.__name__, "root": name})
+                        problems.append({"kind": "AttributeError", "name": a, "on": val.__name__, "root": name,
+                                         "line": ins.positions.lineno})
+                        broken = True
                         break
                     val = getattr(val, a)
                     j += 1
+                if found and not broken:
+                    while j < len(instrs) and instrs[j].opname == "LOAD_ATTR":
+                        j += 1          # the rest of the chain is on an object that is not a lena module
+                        val = _OPAQUE
+                    chain_end[j] = val
             elif op == "DELETE_GLOBAL":
                 gdeletes.add(ins.argval)
                 if ins.argval not in g:
-                    problems.append({"kind": "NameError", "name": ins.argval})
+                    problems.append({"kind": "NameError", "name": ins.argval, "line": ins.positions.lineno})
             elif op == "DELETE_FAST":
                 implocals.pop(ins.argval, None)
     if cells and code.co_name not in _COMP_NAMES:
@@ -426,7 +459,109 @@ def analyse(code, mod, do_imports):
         n_loads += nc
         problems.extend(pc)
     return {"loads": n_loads, "problems": problems, "greads": sorted(greads), "gstores": sorted(gstores),
-            "gdeletes": sorted(gdeletes)}
+            "gdeletes": sorted(gdeletes), "maybe_unbound": maybe_unbound}
+
+
+_KIND_BIT = {"ImportError": 1, "ModuleNotFoundError": 1, "NameError": 2, "AttributeError": 4}
+_HANDLER_MASK = {"ImportError": 1, "ModuleNotFoundError": 1, "NameError": 2, "UnboundLocalError": 2,
+                 "AttributeError": 4, "Exception": 7, "BaseException": 7}
+OPTS = {}
+
+
+def function_nodes(src):
+    """(qualified name, first line as in co_firstlineno) -> ast node of every def / lambda of the source"""
+    import ast
+    out = {}
+
+    def visit(node, prefix):
+        for ch in ast.iter_child_nodes(node):
+            if isinstance(ch, (ast.FunctionDef, ast.AsyncFunctionDef)):
+                q = prefix + ch.name
+                out[(q, min([ch.lineno] + [d.lineno for d in ch.decorator_list]))] = ch
+                for d in ch.decorator_list + ch.args.defaults + [x for x in ch.args.kw_defaults if x]:
+                    visit(ast.Expr(d), prefix)
+                visit(ast.Module(body=ch.body, type_ignores=[]), q + ".<locals>.")
+            elif isinstance(ch, ast.Lambda):
+                out[(prefix + "<lambda>", ch.lineno)] = ch
+                visit(ast.Expr(ch.body), prefix + "<lambda>.<locals>.")
+            elif isinstance(ch, ast.ClassDef):
+                visit(ast.Module(body=ch.body, type_ignores=[]), prefix + ch.name + ".")
+                for d in ch.decorator_list + ch.bases:
+                    visit(ast.Expr(d), prefix)
+            else:
+                visit(ch, prefix)
+    visit(ast.parse(src), "")
+    return out
+
+
+def own_nodes(fnode):
+    """the nodes of a function body that belong to the function itself (not to inner defs, lambdas, classes)"""
+    import ast
+    body = fnode.body if isinstance(fnode.body, list) else [fnode.body]
+    stack = list(body)
+    while stack:
+        n = stack.pop()
+        yield n
+        for ch in ast.iter_child_nodes(n):
+            if not isinstance(ch, (ast.FunctionDef, ast.AsyncFunctionDef, ast.Lambda, ast.ClassDef)):
+                stack.append(ch)
+
+
+def guard_ranges(fnode):
+    """(first line, last line, mask) of every `try` body of the function whose handlers catch ImportError (1),
+    NameError (2) or AttributeError (4)"""
+    import ast
+    out = []
+    for n in own_nodes(fnode):
+        if isinstance(n, ast.Try):
+            mask = 0
+            for h in n.handlers:
+                if h.type is None:
+                    mask |= 7
+                else:
+                    for t in ast.walk(h.type):
+                        if isinstance(t, ast.Name):
+                            mask |= _HANDLER_MASK.get(t.id, 0)
+                        elif isinstance(t, ast.Attribute):
+                            mask |= _HANDLER_MASK.get(t.attr, 0)
+            if mask and n.body:
+                last = max(getattr(x, "end_lineno", x.lineno) for x in n.body + n.orelse)
+                out.append((n.body[0].lineno, last, mask))
+    return out
+
+
+def raised_classes(fnode, g):
+    """(line, class object) for every `raise X(...)` / `raise X` of the function where `X` is a name or an attribute
+    chain that is not rooted at a local and denotes a class in this interpreter"""
+    import ast
+    bound = set()
+    if not isinstance(fnode, ast.Lambda) or True:
+        a = fnode.args
+        bound |= {x.arg for x in a.posonlyargs + a.args + a.kwonlyargs} | {x.arg for x in (a.vararg, a.kwarg) if x}
+    for n in own_nodes(fnode):
+        if isinstance(n, ast.Name) and isinstance(n.ctx, (ast.Store, ast.Del)):
+            bound.add(n.id)
+        elif isinstance(n, ast.ExceptHandler) and n.name:
+            bound.add(n.name)
+        elif isinstance(n, (ast.Import, ast.ImportFrom)):
+            bound |= {(x.asname or x.name.split(".")[0]) for x in n.names}
+    globs = {n_ for n in own_nodes(fnode) if isinstance(n, ast.Global) for n_ in n.names}
+    out = []
+    for n in own_nodes(fnode):
+        if isinstance(n, ast.Raise) and n.exc is not None:
+            e = n.exc.func if isinstance(n.exc, ast.Call) else n.exc
+            chain = []
+            while isinstance(e, ast.Attribute):
+                chain.append(e.attr)
+                e = e.value
+            if not isinstance(e, ast.Name) or (e.id in bound and e.id not in globs):
+                continue
+            obj = g.get(e.id, getattr(builtins, e.id, None))
+            for a_ in reversed(chain):
+                obj = getattr(obj, a_, None)
+            if isinstance(obj, type):
+                out.append((n.lineno, obj))
+    return out
 
 
 def has_imports(code):
@@ -442,7 +577,10 @@ def static_probe(repo, pkg, subpackages):
         out["import"] = "ok"
     except BaseException as e:   # noqa
         out["import"] = exc_info(e)
-    # star import and __all__
+    mods = lena_modules()
+    out["loaded"] = sorted(mods)
+    out["ns"] = {n: {k: val_kind(v) for k, v in vars(m).items()} for n, m in mods.items()}
+    # star import and __all__ (after the snapshot: what the star import loads is not "imported by import lena.X")
     star = {}
     for t in targets:
         ns = {}
@@ -456,9 +594,19 @@ def static_probe(repo, pkg, subpackages):
             star[t]["all"] = list(m.__all__)
             star[t]["missing"] = [n for n in m.__all__ if not hasattr(m, n)]
     out["star"] = star
-    mods = lena_modules()
-    out["loaded"] = sorted(mods)
-    out["ns"] = {n: {k: val_kind(v) for k, v in vars(m).items()} for n, m in mods.items()}
+    out["loaded_by_star"] = sorted(set(lena_modules()) - set(mods))
+    # the documented exceptions (anchor: lena/core/exceptions.py): do they derive from LenaException?
+    excmod = sys.modules.get("lena.core.exceptions")
+    root_exc = getattr(excmod, "LenaException", None) if excmod is not None else None
+    exc_classes = {}
+    wrapped = set()         # the builtin exceptions that a documented lena exception wraps
+    if excmod is not None:
+        for k, v in vars(excmod).items():
+            if isinstance(v, type) and v.__module__ == excmod.__name__:
+                exc_classes[k] = bool(root_exc is not None and issubclass(v, root_exc))
+                wrapped |= {b for b in v.__bases__ if b.__module__ == "builtins"}
+    out["exc_classes"] = exc_classes
+    audited = {tuple(a) for a in OPTS.get("audited", [])}
     funcs = {}
     for n, m in sorted(mods.items()):
         f = getattr(m, "__file__", None)
@@ -469,6 +617,7 @@ def static_probe(repo, pkg, subpackages):
         top = compile(src, f, "exec", dont_inherit=True)
         codes = []
         function_codes(top, codes)
+        fnodes = function_nodes(src)
         per = {}
         for c in codes:
             q = owner_name(c)
@@ -480,7 +629,7 @@ def static_probe(repo, pkg, subpackages):
             else:
                 key = (q, c.co_firstlineno)
             ent = per.setdefault(key, {"loads": 0, "problems": [], "forked": False, "greads": [], "gstores": [],
-                                       "gdeletes": []})
+                                       "gdeletes": [], "maybe_unbound": []})
             if has_imports(c):
                 ent["forked"] = True
                 r, w = os.pipe()
@@ -503,13 +652,35 @@ def static_probe(repo, pkg, subpackages):
                 os.waitpid(pid, 0)
                 res = json.loads(data.decode()) if data else \
                     {"loads": 0, "problems": [{"kind": "probe-error", "name": "child died"}], "greads": [],
-                     "gstores": [], "gdeletes": []}
+                     "gstores": [], "gdeletes": [], "maybe_unbound": []}
             else:
                 res = analyse(c, m, False)
             ent["loads"] += res["loads"]
             ent["problems"].extend(res["problems"])
-            for k in ("greads", "gstores", "gdeletes"):
+            for k in ("greads", "gstores", "gdeletes", "maybe_unbound"):
                 ent[k] = sorted(set(ent[k]) | set(res[k]))
+        for (q, line), ent in per.items():
+            node = fnodes.get((q, line))
+            if node is None:
+                continue
+            # a failure inside a `try` whose handler catches it is not a failure of the function
+            guards = guard_ranges(node)
+            ent["problems"] = [pr for pr in ent["problems"]
+                               if not any(a <= pr.get("line", -1) <= b and (mask & _KIND_BIT.get(pr["kind"], 0))
+                                          for a, b, mask in guards)]
+            # `raise` statements that name a class: resolved against the real objects
+            if root_exc is not None:
+                for rline, obj in raised_classes(node, vars(m)):
+                    protocol = q.rsplit(".", 1)[-1] in ("__getattr__", "__setattr__", "__delattr__", "__getattribute__")
+                    if obj.__module__ == "builtins":
+                        if obj in wrapped and not protocol:
+                            ent["problems"].append({"kind": "BuiltinRaise", "name": obj.__name__, "line": rline})
+                    elif (obj.__module__ or "").startswith("lena") and not issubclass(obj, root_exc):
+                        ent["problems"].append({"kind": "NonLenaRaise", "name": obj.__name__, "line": rline})
+            # reads of locals that the compiler cannot prove bound, and nobody has audited
+            for var in ent.get("maybe_unbound", []):
+                if (n, q, var) not in audited:
+                    ent["problems"].append({"kind": "MaybeUnbound", "name": var})
         # a function that deletes a global at call time (`global n; del n`): every function of the module that reads
         # or deletes `n` fails when it is called afterwards -- the deleting function itself when it is called twice
         deleted = {}
@@ -717,6 +888,21 @@ def behaviour_probe(repo, pkg, full, subpackages):
     signal.signal(signal.SIGALRM, _alarm)
     signal.signal(signal.SIGVTALRM, _alarm)
     out = {"pkg": pkg, "full": full}
+    # which functions of the tree the exercise enters (sys.monitoring, one event per code object)
+    entered = set()
+    root = os.path.join(os.path.abspath(repo), "lena") + os.sep
+    try:
+        mon = sys.monitoring
+        mon.use_tool_id(3, "c20probe")
+
+        def on_start(code, offset):
+            if code.co_filename.startswith(root):
+                entered.add(f"{code.co_filename[len(root):]}|{code.co_qualname}|{code.co_firstlineno}")
+            return mon.DISABLE
+        mon.register_callback(3, mon.events.PY_START, on_start)
+        mon.set_events(3, mon.events.PY_START)
+    except Exception:
+        mon = None
     real_stdout = sys.stdout
     sys.stdout = io.StringIO()
     sys.stderr = io.StringIO()
@@ -750,6 +936,7 @@ def behaviour_probe(repo, pkg, full, subpackages):
                         one = exercise(pkgmod, n, extras)
                     except BaseException as e:   # noqa
                         one = {"fatal": outcome_exc(e)}
+                    one["__entered__"] = sorted(entered)
                     with os.fdopen(w, "w") as fh:
                         fh.write(json.dumps(one))
                 finally:
@@ -759,7 +946,9 @@ def behaviour_probe(repo, pkg, full, subpackages):
                 data = fh.read()
             os.waitpid(pid, 0)
             res[n] = json.loads(data) if data else {"fatal": "child died"}
+            entered.update(res[n].pop("__entered__", []))
         out["results"] = res
+        out["entered"] = sorted(entered)
     except BaseException as e:   # noqa
         out["fatal"] = exc_info(e)
     finally:
@@ -783,6 +972,7 @@ def main():
     subpackages = json.loads(sys.argv[4])
     if len(sys.argv) > 5:
         opts = json.loads(sys.argv[5])
+        OPTS.update(opts)
         RANDOM.update({k: v for k, v in opts.items() if k in RANDOM})
         # the environment: third-party modules that cannot be imported (what tests/output/test_missing_jinja2.py does)
         for name in opts.get("absent", []):
